@@ -2,6 +2,18 @@
 SOURCE_COMMITS = []
 NOT_APPLICABLE = {}
 CHECKS = {
+ "C05": {
+  "text": "BobBuild.tla (develop-mode builder: checkout/build/package micro-operations, edits incl. reverts, failing scripts, "
+          "kill between every two persistent-state updates or destructive file-system effects and inside scripts) is "
+          "model-checked exhaustively within small bounds; TLC counterexamples of single weakenings of the mechanism "
+          "(prune before reset, no invalidation before run, inputs recorded before run, no prune on digest change, checkout "
+          "state stored before run) and TLC-simulated behaviours are replayed with real bob runs under kill plans / failing "
+          "scripts on generated projects; oracle = real clean build. Bounded model checking of the design plus conformance on "
+          "generated behaviours - not a proof of the code.",
+  "design_ref": "DESIGN.md section 4 (BobBuild.tla, C05) and 4.22",
+  "note": "deterministic generated scripts; kill -9 emulated by os._exit at recorded events or by the script killing its parent; two packages, develop mode, local builds; see evidence assumptions",
+  "technique": "TLA+ spec + TLC exhaustive check; counterexample-directed and simulated behaviours replayed into real `bob dev` runs with kill/fault injection; oracle real clean build",
+ },
  "C10": {
   "text": "StateCommit.tla is model-checked exhaustively (crash between every two file-system effects, torn unsynced files, "
           "stale-lock handling); TLC-simulated behaviours are replayed into the real _BobState under a file-system interposer, "
